@@ -114,8 +114,8 @@ Proof.
     unfold spec_cflist_channels in G.
     set (l := map freq (firstn 5 (filter (fun c => custom c && (minDR c =? cfmin s) && (maxDR c =? cfmax s)) (up s)))) in *.
     assert (L : (List.length l <= 5)%nat) by (unfold l; rewrite map_length; apply firstn_le_length).
-    destruct l as [|z l']; [discriminate|].
-    assert (X : fs = (z :: l') ++ repeat 0 (5 - List.length (z :: l'))) by (destruct z; congruence).
+    destruct (forallb (fun f => f =? 0) l); [discriminate|].
+    assert (X : fs = l ++ repeat 0 (5 - List.length l)) by congruence.
     rewrite X, app_length, repeat_length. lia.
   - apply Forall_forall. intros f Hf. destruct (cflist_only_custom s v fs f G Hf) as [->|[c [Hc [C <-]]]]; [reflexivity|auto].
 Qed.
@@ -135,7 +135,7 @@ Theorem offered_mask_cflist_encodes (s : st) (v : pversion) ms :
 Proof.
   intros G Hn. rewrite get_cflist_spec in G. unfold spec_cflist in G.
   destruct (extra s).
-  { unfold spec_cflist_channels in G. destruct (map freq _) as [|z l]; [discriminate|]. destruct z; discriminate. }
+  { unfold spec_cflist_channels in G. destruct (forallb _ _); discriminate. }
   destruct (pv_before_103 v); [discriminate|].
   destruct (spec_masks_shape (up s) Hn) as [ms' [E [L F]]]. rewrite E in G. injection G as <-.
   now apply cflist_masks_roundtrip.
